@@ -185,6 +185,7 @@ type Scenario struct {
 	NeedFa   bool
 	NeedApi  bool
 	lastTag  *engine.Stag
+	OnlyHReqOpt bool // ... or needs nothing but H, Req and *optional* names (Opt, ofn), which a two-object request simply does not inject
 	OnlyHReq bool // every rule gets by with the injected names H and Req (the two-object pool method can be used)
 	DoMgmt   func(op int)
 }
@@ -192,20 +193,26 @@ type Scenario struct {
 func (sc *Scenario) Index() {
 	sc.byID = map[int]*RuleDef{}
 	sc.OnlyHReq = true
+	sc.OnlyHReqOpt = true
 	for _, r := range sc.Universe {
 		switch r.Ret {
 		case RetKind, RetTopKind, RetElse, RetElseIf, RetForRange:
 			sc.OnlyHReq = false
+			sc.OnlyHReqOpt = false
 		}
 		for _, s := range r.Secs {
 			switch s.Kind {
 			case SecY, SecCall, SecAsgCall, SecLocal, SecReader, SecIfCall, SecUpd:
+			case SecOpt, SecOptFn:
+				sc.OnlyHReq = false
 			case SecConc:
 				if s.Arg&(1<<ChAsgField|1<<ChFunc|1<<ChAsgBad) != 0 || ConcExtras(s.Arg) > 0 {
 					sc.OnlyHReq = false
+					sc.OnlyHReqOpt = false
 				}
 			default:
 				sc.OnlyHReq = false
+				sc.OnlyHReqOpt = false
 			}
 		}
 		sc.byID[r.ID] = r
